@@ -1,9 +1,10 @@
 /-! Model of track simplification (`tracklib/algo/simplification.py`: `douglas_peucker`, `visvalingam`;
 `tracklib/util/geometry.py`: `distance_to_segment`, `triangle_area`, `aire_visval`; `Operator.ARGMIN` of
-`core/operators.py`), as the code is after the repairs ec611a5 (`l == 0` branch) and 1a5eeec (NaN area at
-index 0, `while size > 2`).
+`core/operators.py`), as the code is after the repairs ec611a5 (`l == 0` branch), 1a5eeec (NaN area at
+index 0, `while size > 2`) and 68863c7 (ARGMIN starts from `+inf`).
 
-Scalar-polymorphic, core Lean only. `sqrt` is a parameter (`math.sqrt`), `big` is ARGMIN's sentinel `1e300`.
+Scalar-polymorphic, core Lean only. `sqrt` is a parameter (`math.sqrt`), `big` is ARGMIN's initial minimum:
+`float('inf')` since 68863c7 (`1e300` before; the driver passes the current value, the theorems hold for any).
 NaN in the `@aire` column is `none`. A fix carries a tag (its index in the input track / its timestamp) so
 that "sub-sequence of the input observations" is a statement about observations, not about positions. -/
 namespace TV.Simplify
@@ -142,7 +143,7 @@ def aireVisval (S : List (Fix α)) (i : Nat) : Option α :=
 def vwInit (L : List (Fix α)) : VState α :=
   L.zipIdx.map (fun pi => (pi.1, if pi.2 = 0 then none else aireVisval L pi.2))
 
-/-- `Operator.ARGMIN`: `minimum = +1e300; idmin = 0; if val < minimum: …` (strict: first minimum;
+/-- `Operator.ARGMIN`: `minimum = float('inf')` (`big`; `+1e300` before 68863c7)`; idmin = 0; if val < minimum: …` (strict: first minimum;
 NaN never compares smaller) -/
 def argminLoop : List (Option α) → Nat → α → Nat → Nat
   | [], _, _, idmin => idmin
@@ -182,7 +183,7 @@ def vwLoop (big eps2 : α) : Nat → VState α → VState α
     | none => S
     | some S' => vwLoop big eps2 fuel S'
 
-/-- `visvalingam(track, eps)`: `eps **= 2`, area column, loop, feature removed -/
+/-- `visvalingam(track, eps)`: `eps = eps * eps` (b704eae; `eps **= 2`, which raises OverflowError from 1.35e154 on, before), area column, loop, feature removed -/
 def visvalingam (big eps : α) (L : List (Fix α)) : List (Fix α) :=
   (vwLoop big (eps * eps) L.length (vwInit L)).map (·.1)
 
